@@ -62,13 +62,13 @@ class Interp:
         if self.fmt == "ebyte":
             buf = bytearray(wire.ebyte(i, data))
             try:
-                return self.dec.decode_tcp(buf)
+                return self.dec.decode_tcp(memoryview(buf) if len(self.ops) % 2 else buf)
             finally:
                 buf[:] = b"\xee" * len(buf)
         if self.fmt == "usb":
             buf = bytearray(wire.usb(i, data))
             try:
-                return self.dec.decode_usb(buf)
+                return self.dec.decode_usb(memoryview(buf) if len(self.ops) % 2 else buf)
             finally:
                 buf[:] = b"\xee" * len(buf)
         return self.dec.decode_yacht_devices_string(wire.yd(i, data))
